@@ -25,7 +25,7 @@ OK_PRIMS = ("int", "bool", "char")
 
 def floors_for(feats):
     n = sum(1 for c in headers.COMBINED if c[0] is None or c[0] in feats)
-    return {"type-closure": 3 * n, "send": 3 * n, "census": 3, "clone": 6 * n, "split": n, "ctor-same-key": n, "frame": 10 * n - (3 if "wrath-header" in feats else 0), "unsplit": 5}
+    return {"type-closure": 3 * n, "send": 3 * n, "census": 3, "clone": 6 * n, "split": n, "ctor-same-key": n, "frame": 10 * n - (3 if "wrath-header" in feats else 0), "unsplit": 7}
 
 
 def closure_ok(fb, ty, seen, depth=0):
@@ -240,6 +240,32 @@ def check(ctx, rep):
                 good = ok_ and c_["self_ty"].k == "array" and c_["self_ty"].len == 40 and ops_ in (want_, want_[::-1]) and r == strip(c_["term"]) and c_["op"] == "eq"
         rep.check(good, "unsplit", "vanilla_header::decrypt::DecrypterHalf::is_pair_of", "delegates", "same test as EncrypterHalf::is_pair_of (delegation, or the whole-array equality of the two stored keys)", "DecrypterHalf::is_pair_of is neither a delegation nor the whole-key equality: %s" % show(r, maxdepth=3))
     rep.check(fb.adts.get("vanilla_header::HeaderCrypto", {}).get("send") is True, "unsplit", "vanilla_header::HeaderCrypto", "Send", "re-joined object is Send", "HeaderCrypto is not Send")
+    # the stored key is what makes two halves a pair: it has to stay what the constructor put
+    # there.  Nobody stores into it or borrows it mutably (the cipher step reads it, the position
+    # lives in other fields) - otherwise halves of one object stop comparing equal once they
+    # have carried different amounts of traffic, and halves of different objects may start to.
+    for half in ("vanilla_header::encrypt::EncrypterHalf", "vanilla_header::decrypt::DecrypterHalf"):
+        kf = key_field(ctx, half)
+        writers = set()
+        seen_fns = 0
+        for path in sorted(fb.bodies):
+            if not (path.startswith("vanilla_header::") or path.startswith("<vanilla_header::")):
+                continue
+            fse = ctx.flat.run(path)
+            if fse is None:
+                continue
+            seen_fns += 1
+            for (bi, si), (loc, v) in fse.assigns.items():
+                for L, what in ((loc, "stores into"), (v[1] if v[0] == "ref" and len(v) > 2 and v[2] is True else None, "borrows mutably")):
+                    x = L
+                    while isinstance(x, tuple) and x and x[0] in ("field", "index", "deref", "subslice", "downcast", "i", "const_index"):
+                        if x[0] == "field" and x[2] == kf:
+                            ty = fse.loc_ty(x[1])
+                            ty = ty.peel_refs() if ty is not None else None
+                            if ty is not None and ty.k == "adt" and ty.path == half:
+                                writers.add("%s %s it" % (path, what))
+                        x = x[1] if len(x) > 1 and isinstance(x[1], tuple) else None
+        rep.check(not writers and seen_fns > 0, "unsplit", half, "key-immutable", "the stored session key (the pair identity is_pair_of compares) is never written or mutably borrowed after construction (%d functions of the module looked at)" % seen_fns, "the stored session key, which is_pair_of compares, does not stay what the constructor stored: %s" % sorted(writers))
 
 
 def key_field(ctx, half):
